@@ -122,6 +122,7 @@ def _mrs_to_links(
         id_to_nid: _IdMap
 ) -> List[dmrs.Link]:
     links = []
+    scopes = m.scopes()[1]
     # links from arguments
     for src, roleargs in m.arguments().items():
         start = id_to_nid[src]
@@ -152,6 +153,14 @@ def _mrs_to_links(
                 if lbl in reps and len(reps[lbl]) > 0:
                     ep = reps[lbl][0]
                     assert isinstance(ep, mrs.EP)
+                    if src_ep.is_quantifier():
+                        # a quantifier selects the predication it binds,
+                        # whichever member represents the scope
+                        for member in scopes.get(lbl, []):
+                            if (member.iv == src_ep.iv
+                                    and not member.is_quantifier()):
+                                ep = member
+                                break
                     end = id_to_nid[ep.id]
                 # BODY, dropped arguments, invalid, etc.
                 else:
@@ -175,7 +184,7 @@ def _mrs_to_links(
         if link.post == dmrs.EQ_POST:
             eq.setdefault(link.start, []).append(link.end)
             eq.setdefault(link.end, []).append(link.start)
-    for label, members in m.scopes()[1].items():
+    for label, members in scopes.items():
         if len(members) < 2 or not reps.get(label):
             continue
         end = id_to_nid[reps[label][0].id]
